@@ -145,7 +145,7 @@ OutEv(id, cls, alg_, app) ==
 EvKind(e) == IF e.k = "failed" THEN <<e.k, e.why>> ELSE IF e.k = "recvd" THEN <<e.k, e.cls>> ELSE <<e.k, "">>
 Observe(st, o) == /\ mon' = Step(mon, o)
                   /\ bad' = bad \cup Failed(mon, o)
-                  /\ hist' = Append(hist, [st |-> st, res |-> o.res,
+                  /\ hist' = Append(hist, [st |-> st, res |-> o.res, unk |-> est'.unk,
                                             evk |-> [i \in DOMAIN o.ev |-> EvKind(o.ev[i])]])
 
 Init ==
@@ -221,7 +221,8 @@ SendIndication(dt, app) ==
 \* stops judging until the next reset.)
 EstSampleCode(e, r) ==
     LET R == r * U IN
-    IF r > RMax THEN [e EXCEPT !.unk = TRUE]     \* beyond what 32-bit TLC integers can follow
+    IF e.unk \/ r > RMax THEN [e EXCEPT !.unk = TRUE]   \* beyond what 32-bit TLC integers can follow;
+                                                       \* stays unknown until the estimator is reset
     ELSE IF e.srtt = 0
     THEN [srtt |-> R, rttvar |-> R \div 2, rto |-> R + Max(Gran * U, 4 * (R \div 2)),
           first |-> (R = 0), unk |-> FALSE]
